@@ -308,3 +308,35 @@ Proof.
     rewrite (decode_written_payload (Some k)) by (try assumption; reflexivity).
     cbn [compressed_len Z.eqb]. reflexivity.
 Qed.
+
+(* ---------------------------------------------------------------- C04 support: totality of the segment decoder
+   The model's result type has two outcomes only (Ok | Err): there is no Panic outcome because the Go decoder has no
+   panic site - its only allocation [make([]byte, length)] takes a length read from a 17-bit field
+   ([decoded_lengths_in_range]) - and no fuel, because every loop of the decoder is bounded by a constant or by
+   that length (the Gallina functions are structurally recursive on it).  The decompressor is any total function. *)
+Theorem decode_segment_total : forall (c : option compressor) (bs : list Z),
+  (exists s rest, decode_segment c bs = Ok (s, rest)) \/ decode_segment c bs = Err.
+Proof. intros c bs. destruct (decode_segment c bs) as [[s r]|]; [left; exists s, r; reflexivity | right; reflexivity]. Qed.
+
+Lemma header_of_data_lengths compressed hd crc :
+  0 <= uncompressed_len (header_of_data compressed hd crc) <= 131071 /\
+  0 <= compressed_len (header_of_data compressed hd crc) <= 131071.
+Proof.
+  unfold header_of_data. destruct compressed.
+  - rewrite !land_max, !shiftr17.
+    pose proof (N.mod_upper_bound hd 131072 ltac:(lia)). pose proof (N.mod_upper_bound (hd / 131072) 131072 ltac:(lia)).
+    destruct (N.eqb_spec ((hd / 131072) mod 131072) 0); cbn [uncompressed_len compressed_len];
+      rewrite !wrap_i32_small by lia; lia.
+  - rewrite land_max. pose proof (N.mod_upper_bound hd 131072 ltac:(lia)).
+    cbn [uncompressed_len compressed_len]. rewrite !wrap_i32_small by lia. lia.
+Qed.
+
+(* the length handed to make([]byte, length) is never negative nor above 131071, for every input *)
+Theorem decoded_lengths_in_range c bs h r : decode_segment_header c bs = Ok (h, r) ->
+  0 <= uncompressed_len h <= 131071 /\ 0 <= compressed_len h <= 131071.
+Proof.
+  unfold decode_segment_header. intro H.
+  destruct (read_le _ bs) as [[hd r1]|]; [|discriminate].
+  destruct (read_le crc24_len r1) as [[ex r2]|]; [|discriminate].
+  destruct (negb _); [discriminate|]. injection H as <- _. apply header_of_data_lengths.
+Qed.
